@@ -13,15 +13,19 @@ judge traces of the real implementation (family `c10judge` of the driver).
   elements being only intermediates for building its path. The `NotAfter` of an issuing CA that lies *later* never
   extends this bound; an implementation that also stops at an *earlier* CA expiry would be stricter than required.
 * A token obtained or issued by a finalizer may be handed out at `t` only while `t < exp`.
-* A cached HTTP response may be served at `t` only while its age `t − received` does not exceed its freshness
-  lifetime (RFC 7234 section 4.2.1, private cache: `max-age`, else `Expires − Date`; an `Expires` value that is not
-  a date means already expired, section 5.3), and it must not be stored at all if that lifetime is not positive.
+* A cached HTTP response may be served at `t` only while its current age — the age it had when it was received
+  (`Age` header, time since `Date`; RFC 7234 section 4.2.3) plus the time it spent in the cache — does not exceed
+  its freshness lifetime (section 4.2.1, private cache: `max-age`, else `Expires − Date`; an `Expires` value that is
+  not a date means already expired, section 5.3). It must not be stored at all if that lifetime is not positive or
+  if it carries `no-cache` (it could only be reused after a validation, which heimdall does not do). A response
+  without explicit expiration time gets the configured `default_ttl` and nothing else (no heuristic from
+  `Last-Modified`): "a configured TTL can only shorten, a TTL of zero disables caching".
 * Results that carry no expiry of their own are limited by the configured TTL only.
 -/
 namespace Heimdall.Validity
 
 /-- may a result of mechanism `m`, cached as `it`, be reused at time `t` -/
-def mayReuse (m : Mech) (cfg : Option Int) (vl : Nat) (it : Item Answer) (t : Int) : Bool :=
+def mayReuse (m : Mech) (cfg : Option Int) (vl : Int) (it : Item Answer) (t : Int) : Bool :=
   match m with
   | .introspection | .generic =>
     match it.ans.exp with
@@ -49,17 +53,27 @@ def freshnessLifetime (now : Int) (x : Exchange) : Option Int :=
     | .invalid => some 0
     | .absent => none
 
-/-- may the cached response `it` be served at `t` -/
-def mayServe (it : Item Exchange) (t : Int) : Bool :=
+/-- age of a response at the time it is received (RFC 7234 section 4.2.3, with a response delay of zero): the
+larger of the `Age` header value and the apparent age `now − Date` -/
+def initialAge (now : Int) (x : Exchange) : Int :=
+  max (max 0 (x.age.getD 0)) (match x.date with
+    | some d => max 0 (now - d)
+    | none => 0)
+
+/-- may the cached response `it` be served at `t`: its current age (age on receipt + time spent in this cache) must
+not exceed its freshness lifetime; a response without explicit expiration time is limited by the configured
+`default_ttl` (`dttl`) -/
+def mayServe (dttl : Int) (it : Item Exchange) (t : Int) : Bool :=
   match freshnessLifetime it.time it.ans with
-  | some l => decide (t ≤ it.time + l)
-  | none => true
+  | some l => decide (initialAge it.time it.ans + (t - it.time) ≤ l)
+  | none => decide (t - it.time ≤ dttl)
 
 /-- may a response received at `now` be stored at all -/
-def mayStore (now : Int) (x : Exchange) : Bool :=
+def mayStore (dttl : Int) (now : Int) (x : Exchange) : Bool :=
+  !x.noCache &&
   match freshnessLifetime now x with
   | some l => decide (0 < l)
-  | none => true
+  | none => decide (0 < dttl)
 
 /-- the last instant at which an entry written at `now` with `ttl` is still served -/
 def lastServed (k : StoreKind) (now ttl : Int) : Int :=
